@@ -630,6 +630,81 @@ def rule_rtlir_slices(repo):
     return rule_widthtable(repo)
 
 
+VALUE_METHODS_EXEMPT = {
+    'to_bits': "Bits.to_bits() is the identity by design (a Bits is its own packed form); it is not a slicing / arithmetic result",
+}
+
+
+def rule_value_semantics(repo):
+    """x[a:b], x[i], arithmetic and the extension helpers produce VALUES: a result that is the operand object itself is changed by a
+    later in-place write (@=, <<=, x[i] = ..) to the operand -- and vice versa."""
+    r = RuleResult('R-C05-value', "slicing, indexing, arithmetic / logic operators, clone and the extension helpers return a fresh Bits "
+                                  "object on every path (never the operand itself); only the in-place operators return self")
+    m = repo.mod(BITS)
+    meths = m.methods('Bits')
+    inplace = {k for k in meths if k.startswith('__i') and k.endswith('__') and k not in ('__init__', '__int__', '__index__', '__invert__')}
+    value = {k for k in meths if (k.startswith('__') and k.endswith('__') and k not in inplace and
+                                  k not in ('__init__', '__setitem__', '__hash__', '__bool__', '__int__', '__index__', '__repr__', '__str__', '__format__'))
+             or k in ('clone', 'to_bits')}
+
+    def aliases_of_params(f):
+        params = {a.arg for a in f.args.args}
+        al = set(params)
+        changed = True
+        while changed:
+            changed = False
+            for n in walk_no_nested(f):
+                if isinstance(n, ast.Assign) and isinstance(n.value, ast.Name) and n.value.id in al:
+                    for t in n.targets:
+                        if isinstance(t, ast.Name) and t.id not in al:
+                            al.add(t.id)
+                            changed = True
+        return al
+
+    def returned_exprs(e):
+        if isinstance(e, ast.IfExp):
+            return returned_exprs(e.body) + returned_exprs(e.orelse)
+        if isinstance(e, ast.BoolOp):
+            return [x for v in e.values for x in returned_exprs(v)]
+        return [e]
+    for name in sorted(value):
+        f = meths[name]
+        if name in VALUE_METHODS_EXEMPT:
+            r.ok(m, f"Bits.{name}", f"exempt: {VALUE_METHODS_EXEMPT[name]}")
+            continue
+        al = aliases_of_params(f)
+        rets = [n for n in walk_no_nested(f) if isinstance(n, ast.Return) and n.value is not None]
+        bad = [(n, x) for n in rets for x in returned_exprs(n.value) if isinstance(x, ast.Name) and x.id in al]
+        cons = f"Bits.{name}: {len(rets)} return(s)"
+        if bad:
+            n, x = bad[0]
+            r.bad(m, f"Bits.{name}", cons, f"returns the operand object `{x.id}` itself: the result aliases the operand, so a later in-place "
+                  f"write to either one changes the other (a full-width slice / identity shortcut must still build a new Bits)", n.lineno)
+        else:
+            r.ok(m, f"Bits.{name}", cons)
+    for name in sorted(inplace):
+        f = meths[name]
+        me = f.args.args[0].arg
+        rets = [n for n in walk_no_nested(f) if isinstance(n, ast.Return)]
+        ok = rets and all(n.value is not None and norm(n.value) == me for n in rets) and not _falls_through(f)
+        (r.ok if ok else r.bad)(m, f"Bits.{name}", f"in-place operator returns {me}",
+                                *([] if ok else [f"`x {name[3:-2]}= v` rebinds x to whatever {name} returns: it must return {me} on every path", f.lineno]))
+    hm = repo.mod(HELPERS)
+    for name in ('concat', 'zext', 'sext', 'trunc'):
+        f = _fn(hm, name)
+        al = aliases_of_params(f)
+        rets = [n for n in walk_no_nested(f) if isinstance(n, ast.Return) and n.value is not None]
+        bad = [(n, x) for n in rets for x in returned_exprs(n.value) if isinstance(x, ast.Name) and x.id in al]
+        (r.bad if bad else r.ok)(hm, name, f"{name}: {len(rets)} return(s)",
+                                 *([f"returns its argument `{bad[0][1].id}` itself (same-width shortcut): the result aliases the argument", bad[0][0].lineno] if bad else []))
+    r.require_floor(30)
+    return r
+
+
+def _falls_through(f):
+    return not always_exits(f.body)
+
+
 def rule_slice_nodes(repo):
     """sibling implementation of slicing: the per-signal memo of slice objects (`_dsl.slices`) and the nodes the structural
     passes register for them must be keyed by the absolute bit range, so that a nested slice never aliases the node of a
@@ -646,7 +721,7 @@ def rule_translated_slices(repo):
 
 
 RULES = [rule_bounds, rule_nonefalsy, rule_frame, rule_fit, rule_helpers, rule_intlog, rule_signal_slices, rule_rtlir_slices,
-         rule_slice_nodes, rule_translated_slices]
+         rule_slice_nodes, rule_translated_slices, rule_value_semantics]
 
 
 def _m(name, old, new, rule=None, file=BITS, count=1):
@@ -657,6 +732,9 @@ _DEF_NEW = """        start = 0 if idx.start is None else int(idx.start)
         stop  = self._nbits if idx.stop is None else int(idx.stop)
 """
 MUTANTS = [
+    _m('getitem-full-width-returns-self', "      # Bypass check\n      nbits = stop - start\n", "      # Bypass check\n      nbits = stop - start\n      if nbits == self._nbits:\n        return self\n", 'R-C05-value'),
+    _m('zext-same-width-returns-arg', "    assert new_width >= value.nbits\n    return Bits( new_width, value.uint() )", "    assert new_width >= value.nbits\n    if new_width == value.nbits:\n      return value\n    return Bits( new_width, value.uint() )", 'R-C05-value', file=HELPERS),
+    _m('imatmul-returns-none-on-int-path', "      self._uint = v & up\n\n    return self\n\n  def to_bits", "      self._uint = v & up\n      return\n\n    return self\n\n  def to_bits", 'R-C05-value'),
     _m('slice-int-check-wrong-table-key', "        lo = _lower[slice_nbits]\n        up = _upper[slice_nbits]\n\n        if v < lo or v > up:\n          raise ValueError( f\"Cannot fit {v} into a Bits{slice_nbits} slice", "        lo = _lower[stop]\n        up = _upper[stop]\n\n        if v < lo or v > up:\n          raise ValueError( f\"Cannot fit {v} into a Bits{slice_nbits} slice", 'R-C05-fit'),
     _m('D1-reintroduced', _DEF_NEW, "        start, stop = int(idx.start or 0), int(idx.stop or self._nbits)\n", 'R-C05-nonefalsy', count='first'),
     _m('stop-default-truthy', "        stop  = self._nbits if idx.stop is None else int(idx.stop)\n",
